@@ -1002,6 +1002,423 @@ theorem parseUint_valid (base bitSize : Nat) (hb : 2 ≤ base) (hbs : 1 ≤ bitS
   unfold parseUint
   simp only [hne, if_false, hb0, hbs0]
   rw [hloop]
-  split <;> simp
+  by_cases hle : foldv base ds 0 ≤ 2 ^ bitSize - 1
+  · simp [hle]
+  · simp [hle]
+
+/-! ## exhaustive facts about single bytes -/
+
+theorem uint8_forall (P : UInt8 → Prop) (h : ∀ i : Fin 256, P (UInt8.ofNat i.val)) : ∀ c, P c := by
+  intro c
+  have := h ⟨c.toNat, c.toNat_lt⟩
+  simpa using this
+
+def digitLt (b : Nat) (c : UInt8) : Bool :=
+  match digitVal c with
+  | some x => decide (x < b)
+  | none => false
+
+theorem digitLt_iff (b : Nat) (c : UInt8) : digitLt b c = true ↔ ∃ x, digitVal c = some x ∧ x < b := by
+  unfold digitLt
+  cases digitVal c with
+  | none => simp
+  | some x => simp
+
+theorem hexdigit_val : ∀ c : UInt8, isDigitChar true c = true → digitLt 16 c = true := by
+  apply uint8_forall
+  decide +kernel
+
+theorem octdigit_val : ∀ c : UInt8, (48 ≤ c ∧ c ≤ 55) → digitLt 8 c = true := by
+  apply uint8_forall
+  decide +kernel
+
+theorem decdigit_isDigitChar (hex : Bool) (c : UInt8) (h : 48 ≤ c ∧ c ≤ 57) : isDigitChar hex c = true := by
+  simp [isDigitChar, h]
+
+/-! ## octal and hexadecimal escapes -/
+
+theorem countDigits_append (hex : Bool) (rest : Bytes) :
+    ∀ (ds : Bytes) (max : Nat), (∀ d ∈ ds, isDigitChar hex d = true) → ds.length ≤ max →
+      (ds.length = max ∨ ∀ c r, rest = c :: r → isDigitChar hex c = false) →
+      countDigits hex max (ds ++ rest) = ds.length
+  | [], max, _, _, hstop => by
+    cases max with
+    | zero => rfl
+    | succ m =>
+      cases rest with
+      | nil => rfl
+      | cons c r =>
+        rcases hstop with h | h
+        · simp at h
+        · simp [countDigits, h c r rfl]
+  | d :: ds, max, hds, hlen, hstop => by
+    cases max with
+    | zero => simp at hlen
+    | succ m =>
+      have hd := hds d (List.mem_cons_self ..)
+      simp only [List.cons_append, countDigits, hd, if_true, List.length_cons]
+      rw [countDigits_append hex rest ds m (fun x hx => hds x (List.mem_cons_of_mem _ hx))
+        (by simp at hlen; omega)
+        (by rcases hstop with h | h
+            · left; simp at h; omega
+            · right; exact h)]
+      omega
+
+theorem oct_not_table : ∀ c : UInt8, (48 ≤ c ∧ c ≤ 55) →
+    ¬ (c = 97 ∨ c = 98 ∨ c = 101 ∨ c = 69 ∨ c = 102 ∨ c = 110 ∨ c = 114 ∨ c = 116 ∨ c = 118
+      ∨ c = 92 ∨ c = 39 ∨ c = 34 ∨ c = 63) := by
+  apply uint8_forall
+  decide +kernel
+
+/-- `\` followed by one to three digit characters (the first one octal): exactly these digits are
+    consumed — never a fourth — and one byte is written. -/
+theorem escape_octal (c : UInt8) (ds rest : Bytes) (hc : 48 ≤ c ∧ c ≤ 55)
+    (hds : ∀ d ∈ ds, 48 ≤ d ∧ d ≤ 57) (hlen : ds.length ≤ 2)
+    (hstop : ds.length = 2 ∨ ∀ x r, rest = x :: r → ¬ (48 ≤ x ∧ x ≤ 57)) :
+    escape (c :: ds ++ rest) = some ([UInt8.ofNat (parseUint (c :: ds) 8 8).1], ds.length + 1) := by
+  have hcd : c ≤ 57 := Nat.le_trans hc.2 (by decide)
+  have hall : ∀ d ∈ c :: ds, isDigitChar false d = true := by
+    intro d hd
+    rcases List.mem_cons.1 hd with h | h
+    · subst h; exact decdigit_isDigitChar _ _ ⟨hc.1, hcd⟩
+    · exact decdigit_isDigitChar _ _ (hds d h)
+  have hcount : countDigits false 3 ((c :: ds) ++ rest) = (c :: ds).length := by
+    apply countDigits_append false rest (c :: ds) 3 hall (by simp; omega)
+    rcases hstop with h | h
+    · left; simp [h]
+    · right
+      intro x r hx
+      have := h x r hx
+      simp only [isDigitChar, Bool.false_and, Bool.or_false]
+      simpa using this
+  have hne : ¬ (c = 97 ∨ c = 98 ∨ c = 101 ∨ c = 69 ∨ c = 102 ∨ c = 110 ∨ c = 114 ∨ c = 116 ∨ c = 118
+      ∨ c = 92 ∨ c = 39 ∨ c = 34 ∨ c = 63) := oct_not_table c hc
+  simp only [not_or] at hne
+  obtain ⟨n1, n2, n3, n4, n5, n6, n7, n8, n9, n10, n11, n12, n13⟩ := hne
+  have hcons : c :: ds ++ rest = c :: (ds ++ rest) := rfl
+  rw [hcons]
+  unfold escape
+  simp only [n1, n2, n3, n4, n5, n6, n7, n8, n9, n10, n11, n12, n13, or_self, if_false, hc, and_self,
+    if_true, readDigits_some]
+  have hcount' : countDigits false 3 (c :: (ds ++ rest)) = ds.length + 1 := by
+    have := hcount; simpa using this
+  rw [hcount']
+  simp
+
+theorem foldv_lt (base : Nat) (hb : 1 ≤ base) :
+    ∀ (ds : Bytes) (n : Nat), ValidDigits base ds → foldv base ds n < (n + 1) * base ^ ds.length
+  | [], n, _ => by simp [foldv_nil]
+  | d :: ds, n, hv => by
+    obtain ⟨x, hx, hxb⟩ := hv d (List.mem_cons_self ..)
+    have hv' : ValidDigits base ds := fun y hy => hv y (List.mem_cons_of_mem _ hy)
+    rw [foldv_cons, hx, Option.getD_some, List.length_cons, Nat.pow_succ]
+    have h1 := foldv_lt base hb ds (n * base + x) hv'
+    have h2 : n * base + x + 1 ≤ (n + 1) * base := by rw [Nat.add_mul, Nat.one_mul]; omega
+    calc foldv base ds (n * base + x) < (n * base + x + 1) * base ^ ds.length := h1
+      _ ≤ ((n + 1) * base) * base ^ ds.length := Nat.mul_le_mul_right _ h2
+      _ = (n + 1) * (base ^ ds.length * base) := by rw [Nat.mul_assoc, Nat.mul_comm base]
+
+theorem validDigits_oct (ds : Bytes) (h : ∀ d ∈ ds, 48 ≤ d ∧ d ≤ 55) : ValidDigits 8 ds := fun d hd =>
+  (digitLt_iff 8 d).1 (octdigit_val d (h d hd))
+
+theorem validDigits_hex (ds : Bytes) (h : ∀ d ∈ ds, isDigitChar true d = true) : ValidDigits 16 ds :=
+  fun d hd => (digitLt_iff 16 d).1 (hexdigit_val d (h d hd))
+
+/-- The byte an octal escape with genuine octal digits writes: the value, but 0xff above \377. -/
+theorem parseUint_octal (ds : Bytes) (hne : ds ≠ []) (h : ∀ d ∈ ds, 48 ≤ d ∧ d ≤ 55) :
+    (parseUint ds 8 8).1 = min (foldv 8 ds 0) 255 := by
+  rw [parseUint_valid 8 8 (by decide) (by decide) ds hne (validDigits_oct ds h)]
+  have : (2 : Nat) ^ 8 - 1 = 255 := by decide
+  rw [this]
+  split
+  · rename_i hle; simp [Nat.min_eq_left hle]
+  · rename_i hle; simp [Nat.min_eq_right (Nat.le_of_lt (Nat.not_le.1 hle))]
+
+/-- One to `max` hexadecimal digits: their value (no range error is possible). -/
+theorem parseUint_hex (ds : Bytes) (hne : ds ≠ []) (hlen : ds.length ≤ 8)
+    (h : ∀ d ∈ ds, isDigitChar true d = true) : (parseUint ds 16 32).1 = foldv 16 ds 0 := by
+  have hv := validDigits_hex ds h
+  rw [parseUint_valid 16 32 (by decide) (by decide) ds hne hv]
+  have hlt := foldv_lt 16 (by decide) ds 0 hv
+  have hpow : 16 ^ ds.length ≤ 16 ^ 8 := Nat.pow_le_pow_right (by decide) hlen
+  have h32 : (16 : Nat) ^ 8 = 2 ^ 32 := by decide
+  rw [if_pos (by omega)]
+
+theorem xuU_not_table (c : UInt8) (hc : c = 120 ∨ c = 117 ∨ c = 85) :
+    ¬ (c = 97 ∨ c = 98 ∨ c = 101 ∨ c = 69 ∨ c = 102 ∨ c = 110 ∨ c = 114 ∨ c = 116 ∨ c = 118
+      ∨ c = 92 ∨ c = 39 ∨ c = 34 ∨ c = 63) ∧ ¬ (48 ≤ c ∧ c ≤ 55) := by
+  rcases hc with h | h | h <;> subst h <;> decide
+
+/-- `\x`, `\u`, `\U` followed by 1..max hexadecimal digits (max = 2, 4, 8): exactly these digits
+    are consumed; `\x` writes a single byte, `\u`/`\U` the UTF-8 encoding Go's WriteRune gives. -/
+theorem escape_hex (c : UInt8) (hc : c = 120 ∨ c = 117 ∨ c = 85) (ds rest : Bytes)
+    (hds : ∀ d ∈ ds, isDigitChar true d = true) (hne : ds ≠ [])
+    (hlen : ds.length ≤ (if c = 117 then 4 else if c = 85 then 8 else 2))
+    (hstop : ds.length = (if c = 117 then 4 else if c = 85 then 8 else 2) ∨
+      ∀ x r, rest = x :: r → isDigitChar true x = false) :
+    escape (c :: ds ++ rest) =
+      some (if c = 120 then [UInt8.ofNat (foldv 16 ds 0)] else appendRune (foldv 16 ds 0), 1 + ds.length) := by
+  obtain ⟨hnt, hno⟩ := xuU_not_table c hc
+  simp only [not_or] at hnt
+  obtain ⟨n1, n2, n3, n4, n5, n6, n7, n8, n9, n10, n11, n12, n13⟩ := hnt
+  have hcount := countDigits_append true rest ds _ hds hlen hstop
+  have hl8 : ds.length ≤ 8 := by
+    have : (if c = 117 then 4 else if c = 85 then 8 else 2) ≤ 8 := by
+      split
+      · decide
+      · split <;> decide
+    omega
+  have hcons : c :: ds ++ rest = c :: (ds ++ rest) := rfl
+  rw [hcons]
+  unfold escape
+  simp only [n1, n2, n3, n4, n5, n6, n7, n8, n9, n10, n11, n12, n13, or_self, if_false, hno, hc,
+    if_true, readDigits_some, hcount, List.take_left']
+  have hpos : ds.length > 0 := by cases ds with
+    | nil => exact absurd rfl hne
+    | cons _ _ => simp
+  simp only [hpos, if_true, parseUint_hex ds hne hl8 hds]
+  split <;> rfl
+
+/-! ## directives: the state machine -/
+
+theorem dec_facts : ∀ c : UInt8, (48 ≤ c ∧ c ≤ 57) →
+    c ≠ 92 ∧ c ≠ 37 ∧ c ≠ 99 ∧ ¬ (c = 43 ∨ c = 45 ∨ c = 32) := by
+  apply uint8_forall
+  decide +kernel
+
+theorem step_digit (n : Option (Bytes → Res)) (c : UInt8) (rest fm : Bytes) (args : List Bytes)
+    (hc : 48 ≤ c ∧ c ≤ 57) (hfm : fm.length > 0) :
+    step n c rest ⟨fm, args⟩ = .cont [] ⟨fm ++ [c], args⟩ 0 := by
+  obtain ⟨h92, h37, h99, hfl⟩ := dec_facts c hc
+  unfold step
+  simp only [h92, h37, h99, hfl, hfm, hc, and_self, if_false, if_true]
+
+theorem step_pct (f : Bytes → Res) (rest : Bytes) (args : List Bytes) :
+    step (some f) 37 rest ⟨[], args⟩ = .cont [] ⟨[37], args⟩ 0 := by
+  simp [step]
+
+theorem step_flag (n : Option (Bytes → Res)) (c : UInt8) (rest : Bytes) (args : List Bytes)
+    (hc : c = 43 ∨ c = 45 ∨ c = 32) :
+    step n c rest ⟨[37], args⟩ = .cont [] ⟨[37, c], args⟩ 0 := by
+  rcases hc with h | h | h <;> subst h <;> simp [step]
+
+theorem go_digits (n : Option (Bytes → Res)) (rest : Bytes) (args : List Bytes) :
+    ∀ (ds fm : Bytes), (∀ d ∈ ds, isDec d = true) → fm.length > 0 →
+      go n (ds ++ rest) 0 ⟨fm, args⟩ = go n rest 0 ⟨fm ++ ds, args⟩
+  | [], fm, _, _ => by simp
+  | d :: ds, fm, hds, hfm => by
+    have hd : 48 ≤ d ∧ d ≤ 57 := (isDec_iff d).1 (hds d (List.mem_cons_self ..))
+    rw [List.cons_append, go_zero, step_digit n d _ fm args hd hfm]
+    simp only [Res.prepend_nil]
+    rw [go_digits n rest args ds (fm ++ [d]) (fun x hx => hds x (List.mem_cons_of_mem _ hx)) (by simp)]
+    simp
+
+/-- A conversion specification as formatInto accepts it: `%`, at most one flag character, zeros,
+    width digits, conversion character. -/
+structure MDir where
+  flag : Bytes
+  zeros : Nat
+  width : Bytes
+  verb : UInt8
+  deriving DecidableEq, Repr
+
+def MDir.digits (d : MDir) : Bytes := List.replicate d.zeros 48 ++ d.width
+def MDir.fmts (d : MDir) : Bytes := 37 :: (d.flag ++ d.digits)
+def MDir.render (d : MDir) : Bytes := d.fmts ++ [d.verb]
+
+structure MDir.WF (d : MDir) : Prop where
+  flag : d.flag = [] ∨ d.flag = [43] ∨ d.flag = [45] ∨ d.flag = [32]
+  width : ∀ x ∈ d.width, isDec x = true
+  nz : ∀ c r, d.width = c :: r → c ≠ 48
+  verb : d.verb = 99 ∨ d.verb = 115 ∨ d.verb = 98 ∨ isNumVerb d.verb = true
+
+theorem MDir.digits_dec (d : MDir) (h : d.WF) : ∀ x ∈ d.digits, isDec x = true := by
+  intro x hx
+  rcases List.mem_append.1 hx with hx | hx
+  · rw [List.mem_replicate] at hx; rw [hx.2]; decide
+  · exact h.width x hx
+
+theorem MDir.fmtsOK (d : MDir) (h : d.WF) : FmtsOK d.fmts :=
+  Or.inr ⟨d.flag, d.digits, rfl, h.flag, d.digits_dec h⟩
+
+/-- The loop runs through a whole directive and takes (at most) one argument. -/
+theorem go_directive (f : Bytes → Res) (hf : ∀ a, ∃ o l, f a = .ok o l) (d : MDir) (h : d.WF)
+    (rest : Bytes) (args : List Bytes) :
+    go (some f) (d.render ++ rest) 0 ⟨[], args⟩ =
+      (go (some f) rest 0 ⟨[], args.tail⟩).prepend (popOut f d.verb rest d.fmts (args.headD [])) := by
+  have hr : d.render ++ rest = 37 :: (d.flag ++ (d.digits ++ (d.verb :: rest))) := by
+    simp [MDir.render, MDir.fmts]
+  rw [hr, go_zero, step_pct]
+  simp only [Res.prepend_nil]
+  have hflag : go (some f) (d.flag ++ (d.digits ++ (d.verb :: rest))) 0 ⟨[37], args⟩ =
+      go (some f) (d.digits ++ (d.verb :: rest)) 0 ⟨37 :: d.flag, args⟩ := by
+    rcases h.flag with hfl | hfl | hfl | hfl <;> rw [hfl]
+    · rfl
+    · rw [List.singleton_append, go_zero, step_flag _ _ _ _ (Or.inl rfl)]; simp [Res.prepend_nil]
+    · rw [List.singleton_append, go_zero, step_flag _ _ _ _ (Or.inr (Or.inl rfl))]; simp [Res.prepend_nil]
+    · rw [List.singleton_append, go_zero, step_flag _ _ _ _ (Or.inr (Or.inr rfl))]; simp [Res.prepend_nil]
+  rw [hflag, go_digits (some f) _ args d.digits (37 :: d.flag) (d.digits_dec h) (by simp)]
+  have hfm : 37 :: d.flag ++ d.digits = d.fmts := by simp [MDir.fmts]
+  rw [hfm, go_view f hf d.verb rest d.fmts args (d.fmtsOK h)]
+  have hp : pops d.fmts d.verb = true := by
+    rw [pops_iff]
+    refine ⟨?_, by simp [MDir.fmts], h.verb⟩
+    intro h92
+    have hv := h.verb
+    rw [h92] at hv
+    revert hv; decide
+  rw [if_pos hp]
+
+/-- The argument handed to Fprintf for a conversion character. -/
+def fargOf (v : UInt8) (a : Bytes) : FArg :=
+  if v = 115 then .str a
+  else if v = 105 ∨ v = 100 then .int (parseInt a).1
+  else .uint (toU64 (parseInt a).1)
+
+/-- `%i` and `%u` are printed with Go's `%d`. -/
+def goVerb (v : UInt8) : UInt8 := if v = 105 ∨ v = 117 then 100 else v
+
+/-- What a directive writes for the argument `a` (`[]` when the arguments ran out). -/
+def MDir.out (f : Bytes → Res) (d : MDir) (a : Bytes) : Bytes :=
+  if d.verb = 99 then [a.headD 0]
+  else if d.verb = 98 then (match f a with | .ok o _ => o | _ => [])
+  else (goFprintf (d.fmts ++ [goVerb d.verb]) (fargOf d.verb a)).getD []
+
+theorem popOut_eq (f : Bytes → Res) (d : MDir) (h : d.WF) (rest a : Bytes) :
+    popOut f d.verb rest d.fmts a = d.out f a := by
+  obtain ⟨h37, hnf, hnd⟩ := verb_facts d.verb h.verb
+  have h92 : d.verb ≠ 92 := by
+    intro h92; have hv := h.verb; rw [h92] at hv; revert hv; decide
+  have hlen : d.fmts.length > 0 := by simp [MDir.fmts]
+  unfold popOut MDir.out step
+  simp only [h92, hlen, h37, if_false, if_true]
+  by_cases h99 : d.verb = 99
+  · simp only [h99, if_true, List.length_cons, List.length_nil, Nat.zero_add, gt_iff_lt, Nat.lt_add_one,
+      popArg_cons]
+    cases a with
+    | nil => rfl
+    | cons b bs => simp [idx?]
+  · have hverb : d.verb = 115 ∨ d.verb = 98 ∨ isNumVerb d.verb = true := by
+      rcases h.verb with hv | hv
+      · exact absurd hv h99
+      · exact hv
+    simp only [h99, hnf, hnd, hverb, if_false, if_true, popArg_cons]
+    by_cases h98 : d.verb = 98
+    · simp only [h98, if_true]
+      cases f a <;> rfl
+    · simp only [h98, if_false, fargOf, goVerb]
+      cases goFprintf (d.fmts ++ [if d.verb = 105 ∨ d.verb = 117 then 100 else d.verb])
+        (if d.verb = 115 then FArg.str a else if d.verb = 105 ∨ d.verb = 100 then FArg.int (parseInt a).1
+          else FArg.uint (toU64 (parseInt a).1)) <;> rfl
+
+/-- `directive_sem` for the model: a directive is processed as a unit; it writes `d.out` of the
+    first argument (an empty string when there is none) and the loop goes on with the others. -/
+theorem go_directive_out (f : Bytes → Res) (hf : ∀ a, ∃ o l, f a = .ok o l) (d : MDir) (h : d.WF)
+    (rest : Bytes) (args : List Bytes) :
+    go (some f) (d.render ++ rest) 0 ⟨[], args⟩ =
+      (go (some f) rest 0 ⟨[], args.tail⟩).prepend (d.out f (args.headD [])) := by
+  rw [go_directive f hf d h rest args, popOut_eq f d h]
+
+/-! ## directives: what Fprintf is asked to do -/
+
+/-- Decimal value of a digit string, continuing from `n`. -/
+def decv : Bytes → Nat → Nat
+  | [], n => n
+  | c :: r, n => decv r (n * 10 + (c.toNat - 48))
+
+def MDir.flags (d : MDir) : Flags :=
+  { plus := d.flag = [43], minus := d.flag = [45], space := d.flag = [32], zero := d.zeros > 0 }
+
+def MDir.wid (d : MDir) : Option Nat := if d.width = [] then none else some (decv d.width 0)
+
+theorem parseFlags_zeros (r : Bytes) : ∀ (z : Nat) (fl : Flags),
+    parseFlags fl (List.replicate z 48 ++ r) = parseFlags { fl with zero := fl.zero || decide (z > 0) } r
+  | 0, fl => by simp
+  | z + 1, fl => by
+    rw [List.replicate_succ, List.cons_append, parseFlags]
+    simp only [if_true]
+    rw [parseFlags_zeros r z]
+    simp
+
+theorem parseFlags_stop (fl : Flags) (c : UInt8) (r : Bytes)
+    (hc : c ≠ 48 ∧ c ≠ 43 ∧ c ≠ 45 ∧ c ≠ 32) : parseFlags fl (c :: r) = (fl, c :: r) := by
+  simp [parseFlags, hc.1, hc.2.1, hc.2.2.1, hc.2.2.2]
+
+theorem parsenum_run (v : UInt8) (hv : ¬ (48 ≤ v ∧ v ≤ 57)) :
+    ∀ (ws : Bytes) (n : Nat) (b : Bool) (k : Nat), (∀ d ∈ ws, isDec d = true) → n < 10 ^ k →
+      ws.length + k ≤ 6 →
+      parsenum (ws ++ [v]) n b = some (decv ws n, b || !ws.isEmpty, [v])
+  | [], n, b, _, _, _, _ => by simp [parsenum, hv, decv]
+  | d :: ws, n, b, k, hds, hn, hk => by
+    have hd : 48 ≤ d ∧ d ≤ 57 := (isDec_iff d).1 (hds d (List.mem_cons_self ..))
+    have hk6 : k ≤ 5 := by simp at hk; omega
+    have hpow : 10 ^ k ≤ 10 ^ 5 := Nat.pow_le_pow_right (by decide) hk6
+    have hsmall : ¬ n > 1000000 := by omega
+    have hdv : d.toNat - 48 < 10 := by
+      have : d.toNat ≤ 57 := hd.2
+      omega
+    rw [List.cons_append, parsenum, if_pos hd, if_neg hsmall]
+    rw [parsenum_run v hv ws _ true (k + 1) (fun x hx => hds x (List.mem_cons_of_mem _ hx))
+      (by rw [Nat.pow_succ]; omega) (by simp at hk; omega)]
+    simp [decv]
+
+theorem verb_fmt_facts (v : UInt8) (hv : v = 100 ∨ v = 111 ∨ v = 120 ∨ v = 115) :
+    (v ≠ 48 ∧ v ≠ 43 ∧ v ≠ 45 ∧ v ≠ 32) ∧ (97 ≤ v ∧ v ≤ 122) ∧ ¬ (48 ≤ v ∧ v ≤ 57) ∧
+    ¬ (v = 46 ∨ v = 42 ∨ v = 91 ∨ v = 37 ∨ v ≥ 128 ∨ ¬ True) := by
+  rcases hv with h | h | h | h <;> subst h <;> decide
+
+theorem dec_not_flag : ∀ c : UInt8, (48 ≤ c ∧ c ≤ 57) → c ≠ 48 →
+    (c ≠ 48 ∧ c ≠ 43 ∧ c ≠ 45 ∧ c ≠ 32) ∧ ¬ (97 ≤ c ∧ c ≤ 122) := by
+  apply uint8_forall
+  decide +kernel
+
+/-- The call `fmt.Fprintf(sb, string(fmts), farg)` of a well-formed directive with a width of at
+    most six digits is `printArg` with the directive's flags and width. -/
+theorem goFprintf_closed (d : MDir) (h : d.WF) (hw : d.width.length ≤ 6) (v : UInt8)
+    (hv : v = 100 ∨ v = 111 ∨ v = 120 ∨ v = 115) (farg : FArg) :
+    goFprintf (d.fmts ++ [v]) farg = printArg d.flags d.wid farg v := by
+  obtain ⟨hvf, hvl, hvd, hvok⟩ := verb_fmt_facts v hv
+  have hshape : d.fmts ++ [v] = 37 :: (d.flag ++ (List.replicate d.zeros 48 ++ (d.width ++ [v]))) := by
+    simp [MDir.fmts, MDir.digits]
+  rw [hshape]
+  unfold goFprintf
+  simp only [ne_eq, not_true_eq_false, if_false]
+  -- the flag loop
+  have hpf : parseFlags {} (d.flag ++ (List.replicate d.zeros 48 ++ (d.width ++ [v]))) =
+      (d.flags, d.width ++ [v]) := by
+    have hstop : ∀ fl : Flags, parseFlags fl (d.width ++ [v]) = (fl, d.width ++ [v]) := by
+      intro fl
+      cases hwd : d.width with
+      | nil => exact parseFlags_stop fl v [] hvf
+      | cons c r =>
+        have hc : 48 ≤ c ∧ c ≤ 57 := (isDec_iff c).1 (h.width c (by rw [hwd]; exact List.mem_cons_self ..))
+        exact parseFlags_stop fl c _ (dec_not_flag c hc (h.nz c r hwd)).1
+    rcases h.flag with hfl | hfl | hfl | hfl
+    · rw [hfl, List.nil_append, parseFlags_zeros, hstop]; simp [MDir.flags, hfl]
+    · rw [hfl, List.singleton_append, parseFlags]
+      simp only [show ¬ ((43 : UInt8) = 48) by decide, if_false, if_true]
+      rw [parseFlags_zeros, hstop]; simp [MDir.flags, hfl]
+    · rw [hfl, List.singleton_append, parseFlags]
+      simp only [show ¬ ((45 : UInt8) = 48) by decide, show ¬ ((45 : UInt8) = 43) by decide, if_false, if_true]
+      rw [parseFlags_zeros, hstop]; simp [MDir.flags, hfl]
+    · rw [hfl, List.singleton_append, parseFlags]
+      simp only [show ¬ ((32 : UInt8) = 48) by decide, show ¬ ((32 : UInt8) = 43) by decide,
+        show ¬ ((32 : UInt8) = 45) by decide, if_false, if_true]
+      rw [parseFlags_zeros, hstop]; simp [MDir.flags, hfl]
+  rw [hpf]
+  cases hwd : d.width with
+  | nil =>
+    simp only [List.nil_append, hvl, and_self, if_true, MDir.wid, hwd]
+  | cons c r =>
+    have hc : 48 ≤ c ∧ c ≤ 57 := (isDec_iff c).1 (h.width c (by rw [hwd]; exact List.mem_cons_self ..))
+    have hcl := (dec_not_flag c hc (h.nz c r hwd)).2
+    simp only [List.cons_append, hcl, if_false]
+    have hp := parsenum_run v hvd (c :: r) 0 false 0 (by rw [← hwd]; exact h.width) (by decide)
+      (by rw [← hwd]; omega)
+    simp only [List.cons_append] at hp
+    rw [hp]
+    simp only [not_true_eq_false] at hvok
+    simp only [ne_eq, not_true_eq_false, hvok, if_false, MDir.wid, hwd]
+    simp
 
 end ShVerif.C24
